@@ -49,7 +49,7 @@ type Table struct {
 	vals []Value // nil = deleted (tombstone)
 	live int
 	npos int // number of live positive-integer keys
-	seq   int // 1..seq are all present and seq+1 is absent
+	seq  int // 1..seq are all present and seq+1 is absent
 	Meta *Table
 }
 
